@@ -24,7 +24,7 @@ def configs(tier, seed=0):
     L = 2 if tier == 'quick' else 3
     for obj in ['gauss-cov-callable', 'gauss-model-mean', 'gmrf-prec-callable', 'lognormal', 'reg-gaussian', 'gamma']:
         out.append({'key': 'dist/%s/len%d' % (obj, L), 'kind': 'dist', 'obj': obj, 'len': L})
-    for g in ['a', 'b', 'c', 'd']:
+    for g in ['a', 'b', 'c', 'd', 'e']:
         out.append({'key': 'joint/%s/len%d' % (g, L), 'kind': 'joint', 'graph': g, 'len': L})
         out.append({'key': 'joint/%s/siblings' % g, 'kind': 'siblings', 'graph': g})
         out.append({'key': 'joint/%s/repeat50' % g, 'kind': 'repeat', 'graph': g, 'reps': 50})
@@ -171,6 +171,8 @@ def run(cfg, c):
                 'stacked': lambda: J._as_stacked().logd(np.hstack([np.asarray(vals[n], dtype=dt).ravel() for n in names])),
                 'factor-cond': lambda: dens[0](**{k: vals[k] for k in dens[0].get_conditioning_variables()}),
                 'logd': lambda: J.logd(**vals2),
+                'reduce-to-last': lambda: C01.eval_reduced(J(**{n: vals[n] for n in names[:-1]}), names[-1:], vals2),
+                'two-stage-reduce': lambda: C01.eval_reduced(J(**{names[0]: vals2[names[0]]})(**{n: vals[n] for n in names[1:-1]}), names[-1:], vals) if len(names) > 2 else None,
             }
             seqs = [s_ for L in range(1, cfg['len'] + 1) for s_ in itertools.product(sorted(ops), repeat=L)]
             if len(seqs) > 90:
